@@ -116,7 +116,23 @@ def _history(rng, d, length):
     return hist
 
 
+def _diamond_bound():
+    """a(x, z: bound) -> b(a), c(a) -> d(b, c): a bound value on an ancestor that is reached along two paths."""
+    return {"funcs": [{"name": "fa", "params": ["x", "z"], "outputs": ["a"], "bound": {"z": "B0_z"}},
+                      {"name": "fb", "params": ["a"], "outputs": ["b"]}, {"name": "fc", "params": ["a"], "outputs": ["c"]},
+                      {"name": "fd", "params": ["b", "c"], "outputs": ["d"]}]}
+
+
 def _cases(tier, rng):
+    # (directed: the tip of a diamond, or one side of it, is requested first; the bound value of the shared ancestor is
+    # changed; the requests are repeated in either order - for every cache type and several choices of cached functions)
+    call = lambda o: {"op": "call", "output": o, "kwargs": {"x": "v0_x"}, "full_output": False}  # noqa: E731
+    upd = {"op": "update_bound", "func": "fa", "name": "z", "value": "B1_z"}
+    for ci, cache in enumerate(CACHES):
+        for cached in (["fc"], ["fb", "fc"], ["fa", "fb", "fc", "fd"], ["fd"], ["fb"]):
+            for hist in ([call("d"), upd, call("d"), call("c")], [call("c"), call("d"), upd, call("c"), call("d")],
+                         [call("d"), upd, call("b"), call("d")], [call("b"), upd, call("d"), call("a")]):
+                yield {"dag": _diamond_bound(), "cache": cache, "cached": cached, "seed": ci, "history": hist}
     n = 4000 if tier == "quick" else 40000
     for q in range(n):
         d = dag.gen_dag(rng, rng.randint(1, 4))
